@@ -266,3 +266,80 @@ def read_reach(m0: int, n0: int, v0: int, m1: int, n1: int, v1: int, m2: int, n2
     post: _
     """
     return reached(scenario(m0, n0, v0, m1, n1, v1, m2, n2, v2, cut))
+
+
+# ---------------------------------------------------------------- waiting for the acknowledgement (C19 / C06: the client side)
+def ack_wait(k0, k1, k2):
+    """the real Client._wait_for_acknowledgement over a scripted stream of decodable frames (kinds 0 ACKNOWLEDGE, 1 MODULE_READY,
+    2 CONNECT_V2): it returns the FIRST acknowledgement of the stream - whatever the client is subscribed to and whatever
+    precedes it - having consumed exactly the frames up to and including it; without one, the loss of the connection is reported.
+    shard: nframes 1..3, state all|sub|none, timeout "block" (-1) | "timed" (3 s, clock tick from shard)"""
+    nf = sh("nframes", 2)
+    kinds = [k0, k1, k2][:nf]
+    table = [(cd.MT_ACKNOWLEDGE, 0), (REAL_DEFS[0].type_id, REAL_DEFS[0].type_size), (REAL_DEFS[1].type_id, REAL_DEFS[1].type_size)]
+    frames = [(table[k][0], table[k][1], 0) for k in kinds]
+    state = sh("state", "none")
+    C.time.t = 0.0
+    C.time.tick = sh("tick", 0.001)
+    c = CW.new_client()
+    sock = ScriptSock(frames, "none", 0)
+    c._sock = sock
+    if state == "all":
+        c._sub_all = True
+        c._subscribed_types = CW.mkset([ALL])
+    elif state == "sub":
+        c._subscribed_types = CW.mkset([REAL_DEFS[0].type_id])
+    first = None
+    for i, k in enumerate(kinds):
+        if k == 0 and first is None:
+            first = i
+    timed = sh("timeout", "block") == "timed"
+    try:
+        try:
+            m = c._wait_for_acknowledgement(3 if timed else -1)
+            outcome = "ack"
+        except ConnectionLost:
+            outcome, m = "lost", None
+        except C.AcknowledgementTimeout:
+            outcome, m = "timeout", None
+        except Desync as e:
+            return False, "stream desynchronised: %s" % e
+        except Exception as e:
+            return False, "_wait_for_acknowledgement raised %s: %s" % (type(e).__name__, e)
+        if outcome == "timeout":
+            if not timed:
+                return False, "a blocking wait timed out"
+            if sh("tick", 0.001) < 1.0:
+                return False, "timed out although the clock had not used up the timeout"
+            return True, ""
+        if first is None:
+            if outcome != "lost" or c.connected:
+                return False, "no acknowledgement in the stream, yet the wait reported %s" % outcome
+            return True, ""
+        if outcome != "ack":
+            return False, "an acknowledgement was in the stream but the wait reported %s" % outcome
+        if m.header._msg_type != cd.MT_ACKNOWLEDGE:
+            return False, "the wait returned a message that is not an acknowledgement"
+        if m.header._msg_count != first + 1:
+            return False, "the wait did not return the FIRST acknowledgement of the stream"
+        if sock.pos != sock.starts[first] + HS:
+            return False, "the wait consumed more or less than the frames up to the acknowledgement"
+        return True, ""
+    finally:
+        c._connected = False
+
+
+def h_ack_wait(k0: int, k1: int, k2: int) -> bool:
+    """
+    pre: 0 <= k0 <= 2 and 0 <= k1 <= 2 and 0 <= k2 <= 2
+    post: _
+    """
+    return verdict(ack_wait(k0, k1, k2))
+
+
+def h_ack_wait_reach(k0: int, k1: int, k2: int) -> bool:
+    """
+    pre: 0 <= k0 <= 2 and 0 <= k1 <= 2 and 0 <= k2 <= 2
+    post: _
+    """
+    return reached(ack_wait(k0, k1, k2))
